@@ -82,6 +82,10 @@ func (sp *SAMLServiceProvider) buildAuthnRequest(includeSig bool) (*etree.Docume
 	// Write carriage returns in text as character references so that the
 	// serialized message matches what was signed.
 	doc.WriteSettings.CanonicalText = true
+	// Likewise write tabs, line feeds and carriage returns in attribute values
+	// as character references: written literally, the recipient's XML parser
+	// normalizes them to spaces.
+	doc.WriteSettings.CanonicalAttrVal = true
 
 	// Only POST binding includes <Signature> in <AuthnRequest> (includeSig)
 	if sp.SignAuthnRequests && includeSig {
@@ -346,6 +350,10 @@ func (sp *SAMLServiceProvider) buildLogoutRequest(includeSig bool, nameID string
 	// Write carriage returns in text as character references so that the
 	// serialized message matches what was signed.
 	doc.WriteSettings.CanonicalText = true
+	// Likewise write tabs, line feeds and carriage returns in attribute values
+	// as character references: written literally, the recipient's XML parser
+	// normalizes them to spaces.
+	doc.WriteSettings.CanonicalAttrVal = true
 
 	if includeSig {
 		signed, err := sp.SignLogoutRequest(logoutRequest)
